@@ -1,9 +1,11 @@
 """C19 - the code generator is total, deterministic, one typed field per property.
 
 spec/Codegen.tla (contract: Gen, Meets, Verdict, Observe), CodegenMC.tla (every document with <= 3 objects x
-<= 3 properties x every argument form, exported as vectors; Observe machine over repeated runs),
-CodegenTrace.tla (recorded runs on larger random documents); harness/cmd/codegen (runs the generator
-binary built from $VERIF_REPO/cmd/arcaflow-codegen as a subprocess, one temporary directory per input).
+<= 3 properties x every argument form, exported as vectors; Observe machine over repeated runs in one
+directory, fresh or holding the output of another input: other arguments, a shorter / a longer document),
+CodegenTrace.tla (recorded runs on larger random documents, in fresh directories and one after the other in
+one directory); harness/cmd/codegen (runs the generator binary built from $VERIF_REPO/cmd/arcaflow-codegen as
+a subprocess in temporary directories).
 """
 import os, json, re, shutil, subprocess, glob
 from vlib import common
@@ -78,6 +80,10 @@ def consume(ctx, cases, results, stats):
         stats["ref_raw"] += r.get("ref_raw", 0)
         stats["ref_titled"] += r.get("ref_titled", 0)
         stats["max_variants"] = max(stats["max_variants"], r.get("max_variants", 0))
+        stats["reruns"] += r.get("reruns", 0)
+        stats["over_skipped"] += r.get("over_skipped", 0)
+        for k, n_ in (r.get("over") or {}).items():
+            stats["over"][k] = stats["over"].get(k, 0) + n_
         if r.get("typeids"):
             stats["sdk_typeids"] = r["typeids"]
         for k in r.get("keys", []):
@@ -120,6 +126,11 @@ def validate_trace(ctx, trace, tag):
         if sorted(verdicts) != list(range(1, len(part) + 1)):
             raise common.Infra("CodegenTrace exported %d verdicts for %d lines" % (len(verdicts), len(part)))
         rejected = 0
+        # the specification's verdict on the fresh-directory run of each input (first such line)
+        fresh_verdict = {}
+        for i, line in enumerate(part):
+            if line.get("rel", "fresh") == "fresh":
+                fresh_verdict.setdefault(line["inp"], verdicts[i + 1]["verdict"])
         for i, line in enumerate(part):
             v = verdicts[i + 1]
             if v["verdict"] == "bad_trace":
@@ -135,8 +146,18 @@ def validate_trace(ctx, trace, tag):
             rejected += 1
             case = dict(op="doc", doc=line["doc"], args=line["args"], style=line.get("style", "block"),
                         runs=max(5, line.get("runs", 5)))
-            for d in (v.get("details") or [""]):
-                ctx.violation(dict(op="run", **{"class": v["verdict"]}, args=v["form"], shape=v["shape"], detail=d),
+            # a finding about the used directory: a run over the output file of an earlier run rejected
+            # although the run of the same input in a fresh directory is accepted
+            used = line.get("rel", "fresh") != "fresh" and fresh_verdict.get(line["inp"]) == "ok"
+            if used and line.get("prev"):
+                case = dict(op="seq", prev=line["prev"], doc=line["doc"], args=line["args"],
+                            style=line.get("style", "block"))
+            details = [line["rel"]] if used else (v.get("details") or [""])
+            if v["verdict"] == "wrong_field_type" and v.get("carried") and not used:
+                details = [d + "+id" for d in details]
+            for d in details:
+                ctx.violation(dict(op="run_over_existing" if used else "run", **{"class": v["verdict"]},
+                                   args=v["form"], shape=v["shape"], detail=d),
                               dict(case=case, trace_line=line, statement=STATEMENT,
                                    note="CodegenTrace rejects this recorded run: " + v["verdict"]))
         if rejected == 0:
@@ -152,19 +173,27 @@ def note_drift(ctx, stats, what, sample):
 
 
 def new_stats():
-    return dict(inputs=0, lenient=0, ref_raw=0, ref_titled=0, max_variants=0, sdk_typeids=None)
+    return dict(inputs=0, lenient=0, ref_raw=0, ref_titled=0, max_variants=0, sdk_typeids=None,
+                reruns=0, over_skipped=0, over={})
 
 
 def run(ctx):
     thorough = ctx.tier == "thorough"
     runs = 25 if thorough else 5
     ctx.rule = ("every initial state of CodegenMC is one input (document with 0..3 objects x 0..3 properties, the "
-                "properties' types taken from a cyclic sequence of all 15 type IDs and references to each object / "
+                "properties' types taken from a cyclic sequence of all 15 type IDs - each non-reference type ID "
+                "without and with an id of its own (inline object carrying its ID) - and references to each object / "
                 "to an undeclared object started at every offset in Rots; argument form: none, ignore each object, "
-                "ignore an absent name); each input is run %d times in a private directory; plus seeded random "
-                "documents (<= 8 objects x <= 8 properties, arbitrary identifiers, three YAML styles) x 3 argument "
-                "forms; distinct = distinct (type assignment of the document, argument form, which object is "
-                "ignored, outcome class); non-trivial = all (the empty document is one key)" % runs)
+                "ignore an absent name); each input is run %d times in a private directory (even runs: output file "
+                "removed first; odd runs: over the output of the run before); every Prepare successor is the same "
+                "input in a directory that holds the output of another input (each other argument form of the "
+                "document; the document without its last object / with one more object): earlier run, then the "
+                "input in the same directory, compared with exp and with the bytes of a fresh directory; plus seeded "
+                "random documents (<= 8 objects x <= 8 properties, arbitrary identifiers, three YAML styles) x 3 "
+                "argument forms in fresh directories and once more one after the other (and with the document cut "
+                "by an object) in one directory; distinct = distinct (type assignment of the document, argument "
+                "form, which object is ignored, [what the directory held, its length against the output,] outcome "
+                "class); non-trivial = all (the empty document is one key)" % runs)
     stats = new_stats()
     vec = os.path.join(ctx.tmp, "codegen-vectors.ndjson")
     r = ctx.tlc("CodegenMC", "codegen_thorough.cfg" if thorough else "codegen_quick.cfg",
@@ -176,8 +205,18 @@ def run(ctx):
     if not m:
         raise common.Infra("cannot find the number of initial states in TLC's output")
     ninit = int(m.group(m.lastindex))
-    if len(vectors) != ninit:
-        raise common.Infra("TLC has %d initial states but exported %d vectors" % (ninit, len(vectors)))
+    # one vector per state before the first run: the initial states (fresh directory) and their Prepare
+    # successors (the directory holds the output of prev)
+    plain = [v for v in vectors if v["prev"]["args"]["form"] == "fresh"]
+    used_dir = [v for v in vectors if v["prev"]["args"]["form"] != "fresh"]
+    if len(plain) != ninit:
+        raise common.Infra("TLC has %d initial states but exported %d vectors of a fresh directory" % (ninit, len(plain)))
+    inputs = {json.dumps([v["doc"], v["args"]], sort_keys=True) for v in plain}
+    for v in used_dir:
+        if json.dumps([v["doc"], v["args"]], sort_keys=True) not in inputs:
+            raise common.Infra("a vector of a used directory has no vector of the same input in a fresh directory")
+    if not used_dir:
+        raise common.Infra("CodegenMC exported no vector of a used directory (SeqSchemes / SeqRots empty?)")
     for v in vectors:
         v["runs"] = runs
     cases = [dict(op="bind", repo=common.REPO)] + vectors
@@ -185,14 +224,24 @@ def run(ctx):
     consume(ctx, cases, results, stats)
     ctx.exhaustive = True
     ctx.traces += len(vectors)
-    for c in (vectors[0], vectors[len(vectors) // 2], vectors[-1]):
+    for c in (plain[0], plain[len(plain) // 2], used_dir[len(used_dir) // 2]):
         ctx.sample(c)
     # binding: the enumerated universe uses exactly the SDK's type IDs
     used = sorted({p["tid"] for v in vectors for o in v["doc"] for p in o["props"]})
     if used != stats["sdk_typeids"]:
         raise common.Infra("binding table out of date: CodegenMC enumerates type IDs %s, the SDK declares %s"
                            % (used, stats["sdk_typeids"]))
-    ctx.log("vectors: %d inputs, %d generator runs so far" % (len(vectors), ctx.evaluations))
+    # vacuity: every type ID other than ref occurs with an id of its own; runs over a longer and over a
+    # shorter output both happened
+    with_id = sorted({p["tid"] for v in vectors for o in v["doc"] for p in o["props"] if p["tid"] != "ref" and p["ref"]})
+    if with_id != [t for t in stats["sdk_typeids"] if t != "ref"]:
+        raise common.Infra("CodegenMC enumerates an id of its own only with the type IDs %s" % with_id)
+    for rel in ("over_longer_output", "over_shorter_output"):
+        if not stats["over"].get(rel):
+            raise common.Infra("no run %s among the vectors of a used directory: %s" % (rel, stats["over"]))
+    over_vec = dict(stats["over"])
+    ctx.log("vectors: %d inputs in a fresh directory, %d in a used directory %s (%d not judged), %d generator runs so far"
+            % (len(plain), len(used_dir), over_vec, stats["over_skipped"], ctx.evaluations))
 
     # code -> spec: random documents beyond the enumerated universe
     ncases, per = (120, 8) if thorough else (36, 5)
@@ -213,6 +262,12 @@ def run(ctx):
         outcomes_left_open_by_the_statement=stats["lenient"],
         reference_spelling=dict(raw=stats["ref_raw"], title_cased=stats["ref_titled"]),
         most_distinct_outputs_for_one_input=stats["max_variants"],
+        vectors=dict(fresh_directory=len(plain), used_directory=len(used_dir)),
+        runs_over_the_output_of_the_same_input=stats["reruns"],
+        runs_over_the_output_of_another_input=dict(vectors=over_vec,
+                                                   random={k: n_ - over_vec.get(k, 0) for k, n_ in stats["over"].items()},
+                                                   not_judged=stats["over_skipped"]),
+        type_ids_with_an_id_of_their_own=with_id,
         instruments="exit status / stderr of the subprocess, go/parser + go/format (gofmt validity, struct "
                     "extraction), SHA-256 over typedef_output.go; the TLA+ part is an oracle and a history "
                     "machine, not a protocol model",
@@ -230,6 +285,11 @@ def run(ctx):
         "%d runs per input bound the chance of missing an order that varies" % runs,
         "the YAML text is rendered by the harness (block, block with the further keys a real schema carries, "
         "flow) and checked by re-parsing with yaml.v3",
+        "the input of the generator is the schema file and the arguments: what typedef_output.go held before the "
+        "run is no part of it, so a run over the output of an earlier run (other arguments, another document, the "
+        "same input) must give the bytes of a run in a fresh directory",
+        "a type other than ref that carries an id (type_id: object, id: Inner) is not a reference: its field is "
+        "typed by the type ID",
     ]
 
 
